@@ -351,7 +351,7 @@ func init() {
 		n := tierPick(tier, 2, 3)
 		return &Plan{
 			Prop: "C12", Level: "exploration", Engine: "session",
-			Runs:   tierPick(tier, 20000, 600000),
+			Runs:   tierPick(tier, 150000, 6000000),
 			Exh:    ExhC12Count(n),
 			ExhGen: func(i int) *Trace { return ExhC12(i, n) },
 			Budget: tierPick(tier, 50*time.Second, 12*time.Minute),
